@@ -1086,7 +1086,7 @@ def c18(r):
     r.rule = ("Almanac.tla lists, by hand, %d almanac attributes of the lunar date and the hour object with their defining inputs (day / hour stem, "
               "branch, stem-branch pair, month and day branches, month and day pillars, lunar month and day pillar, lunar month and day, mansion). "
               "The driver evaluates them on %s moments x 2 conventions, groups the observations by (attribute, defining inputs) and TLC requires one "
-              "value per group (%s groups with two or more observations). The four classical laws are evaluated by TLC on every day of %s: the 28 "
+              "value per group (%s groups); the spirit-list lookups are additionally called for every ordered pair of (lunar month, day pillar) keys and the suitable/avoid lookups after sampled predecessor lookups, grouped the same way (a lookup must not depend on the one made before it). The four classical laws are evaluated by TLC on every day of %s: the 28 "
               "mansions advance one per day in their fixed order in step with the weekday, the duty god is 'establish' when day and month branches "
               "coincide, the clash branch is six places away, the two pillars of each nayin pair share one element. Distinct non-trivial case = distinct group or day.")
     r.assumptions += ["a table that is consistently wrong for a key is still a function of that key: functional dependence cannot see it (only the four laws pin values)"]
@@ -1096,6 +1096,10 @@ def c18(r):
     r.validate("Trace_Routes", ch)
     chl = r.drive("c18laws", args={"years": 60}, maxlines=30)
     r.validate("Trace_Routes", chl)
+    # history independence of the table lookups: every ordered pair of (month, day pillar) keys, sampled predecessors for the lists
+    chp = r.drive("c18pairs", args={"pred": 200 if thorough else 30}, maxlines=0)
+    r.validate("Trace_Routes", chp)
+    ch = ch + chp
     r.sample_from(ch[:1] + chl[-1:])
     r.cov["samples"] = [s[:500] for s in r.cov["samples"]]
     g = multi = days = 0
